@@ -274,6 +274,11 @@ def slow_echo(x, delay=0.1, size=0, marker=None):
                     _t.sleep(0.002)
             except BaseException:  # noqa
                 pass
+    if x == 'GILHOG':
+        # holds the interpreter lock inside a C call: no Python thread of this process runs until a signal ends the call
+        import ctypes as _ct
+        _ct.PyDLL(None).sleep(1000)
+        return [x]
     if x == 'LINGER':
         # leaves a non-daemon thread behind: the process does not exit when the work is over
         import threading as _th
